@@ -240,6 +240,22 @@ func c16Check(env *core.Env, cc core.Case) core.Verdict {
 		args = append(args, core.Pick(rand.New(rand.NewSource(int64(idx+len(targets)))), ft.File.prefix()+"999", "not-a-rule-id", targets[len(targets)-1].Key, ""))
 	}
 	r := cli(env, root, stdin, args...)
+	if c.Cmd == "format-all" || c.Cmd == "compare-all" || c.Cmd == "compare-all-github" {
+		// the commands that walk a tree without changing the faulty unit are repeated: the failure is reported every time,
+		// however the work is scheduled
+		for k := 0; k < 5 && r.Exit != 0 && r.Class() != sut.ClassTimeout && r.Class() != sut.ClassFault; k++ {
+			before2 := sut.Snap(filepath.Dir(root))
+			r2 := cli(env, root, stdin, args...)
+			if r2.Exit == 0 {
+				r = r2
+				break
+			}
+			if c.Cmd != "format-all" && len(sut.Diff(before2, sut.Snap(filepath.Dir(root)))) > 0 {
+				r = r2
+				break
+			}
+		}
+	}
 	v := core.Verdict{Status: core.Held, Nontrivial: true, Features: []string{"fault:" + c.Fault, "pos:" + c.Pos, "cmd:" + c.Cmd}, Counts: map[string]int{}}
 	what := fmt.Sprintf("fault %s at %s (%s unit %s), command %v", c.Fault, c.Pos, c.Which, ft.Key, args)
 	if r.Class() == sut.ClassTimeout {
